@@ -240,7 +240,31 @@ func relatedValue(rt *rapid.T, v *Value) *Value {
 		}
 	}
 	walk(c, 0)
-	switch rapid.IntRange(0, 2).Draw(rt, "edit") {
+	switch rapid.IntRange(0, 3).Draw(rt, "edit") {
+	case 3: // one text decorated with white space around the same content (shifted inside its field)
+		for tries := 0; tries < 8 && len(texts) >= 1; tries++ {
+			a := texts[rapid.IntRange(0, len(texts)-1).Draw(rt, "td")]
+			f := Types[a.val.Type].Fields[a.i]
+			t := refFixedRead(a.val.F[a.i].T, byte(f.Pad), f.Left)
+			t = bytes.TrimSpace(t)
+			if len(t) == 0 || len(t) >= f.Width {
+				continue
+			}
+			room := f.Width - len(t)
+			deco := rapid.SampledFrom([]string{" ", "\t", "\u00a0", "  ", "\n"}).Draw(rt, "deco")
+			if len(deco) > room {
+				deco = " "
+			}
+			var nt []byte
+			if rapid.Bool().Draw(rt, "decolead") {
+				nt = append([]byte(deco), t...)
+			} else {
+				nt = append(append([]byte{}, t...), deco...)
+			}
+			a.val.F[a.i].T = refFixedWrite(nt, f.Width, byte(f.Pad), f.Left)
+			return c
+		}
+		fallthrough
 	case 0: // swap two texts of equal width
 		for tries := 0; tries < 8 && len(texts) >= 2; tries++ {
 			a := texts[rapid.IntRange(0, len(texts)-1).Draw(rt, "ta")]
